@@ -20,9 +20,41 @@
   traversal): equality with `kv` says "exactly the decoded key/value pairs".
 -/
 import YtkProofs.Props
+import YtkModel.FileCodec
+import YtkModel.Generated.Tables
 
 namespace Ytk.C16
 open Ytk.Props
+
+/-! ## decision tables regenerated from the source (extract/tables.go) -/
+section DecisionTables
+open Ytk.TableT Ytk.FileCodec
+
+/-- (i) the `.properties` rows of the suffix switches of common.DefaultFile{Decoder,Encoder}Provider, as
+    regenerated from common/common.go, are the model's: the suffix selects the properties codec, whose
+    decoder / encoder are props.DecoderFn / props.EncoderFn (the rows of the other suffixes belong to C01) -/
+theorem props_codec_table_matches_model :
+    ofSuffix ".properties" = some .properties ∧
+    lookupD Generated.fileDecoders Generated.fileDecodersDefault ".properties" = decoderOf ".properties" ∧
+    lookupD Generated.fileEncoders Generated.fileEncodersDefault ".properties" = encoderOf ".properties" := by
+  decide +kernel
+
+/-- (ii) a `x.properties` file is read with props.DecoderFn and written with props.EncoderFn — the codec
+    the property is stated for — and no other suffix selects either of them -/
+theorem props_codec_table_rule :
+    lookupD Generated.fileDecoders Generated.fileDecodersDefault ".properties" = "props.DecoderFn" ∧
+    lookupD Generated.fileEncoders Generated.fileEncodersDefault ".properties" = "props.EncoderFn" ∧
+    (∀ r ∈ Generated.fileDecoders, r.target = "props.DecoderFn" → r.key = ".properties") ∧
+    (∀ r ∈ Generated.fileEncoders, r.target = "props.EncoderFn" → r.key = ".properties") := by
+  decide +kernel
+
+/-- (iii) the rows exist and the suffixes are distinct -/
+theorem nonvacuous_props_codec_table :
+    ".properties" ∈ keys Generated.fileDecoders ∧ ".properties" ∈ keys Generated.fileEncoders ∧
+    (keys Generated.fileDecoders).Nodup ∧ (keys Generated.fileEncoders).Nodup := by
+  decide +kernel
+
+end DecisionTables
 
 /-- A flat map written as properties (`k=v` lines, in ANY order of the entries) and read back by
     the reference line parser yields the same pairs, for keys without `=` / newline and values
